@@ -140,6 +140,10 @@ pub fn c14(out: &mut dyn Write, tier: &str, rng: &mut Rng, st: &mut Stats) {
         if let Ok(bdd0) = eval_guarded(&pf) {
             // every fourth diagram is what `-c` leaves of the answer (retain_choice_bottom_up in the formula's own
             // environment): what is exported must still be one node per distinct sub-diagram
+            // every twentieth diagram is the model of the answer (what `-m` makes of it): the binary is then run with -m
+            // as well, and what it exports must be the model, not the whole answer
+            let with_model = !exotic && i % 20 == 10;
+            let bdd0 = if with_model { st.hit("bdd.model-of-the-answer"); pf.env.model(bdd0) } else { bdd0 };
             let bdd0 = if i % 4 == 1 {
                 st.hit("bdd.retained");
                 pf.env.retain_choice_bottom_up(bdd0, if i % 8 == 1 { TruthTableEntry::True } else { TruthTableEntry::False })
@@ -244,7 +248,8 @@ pub fn c14(out: &mut dyn Write, tier: &str, rng: &mut Rng, st: &mut Stats) {
                 let which = (i / 10) % 3;
                 let (flt, fname) = [(TruthTableEntry::Any, "any"), (TruthTableEntry::True, "true"), (TruthTableEntry::False, "false")][which];
                 let bin = format!("{}/rsbdd", std::env::var("VERIF_BIN_DIR").unwrap_or_default());
-                let args: Vec<String> = vec![format!("--evaluate={}", text), "-d".into(), dpath.clone(), "-p".into(), tpath.clone(), "-f".into(), fname.into()];
+                let mut args: Vec<String> = vec![format!("--evaluate={}", text), "-d".into(), dpath.clone(), "-p".into(), tpath.clone(), "-f".into(), fname.into()];
+                if with_model { args.push("-m".into()); }
                 let (class, _so, _se) = crate::parse::run_capture(&bin, &args, &[], 20);
                 st.hit(&format!("cli.exit.{}", class));
                 if class == "ok" {
